@@ -54,6 +54,7 @@ type Interp struct {
 	solver2  *smt.Solver
 	globals  map[*ssa.Global]*Value
 	fninfo   map[*ssa.Function]*fnInfo
+	plain    map[*ssa.Function]*fnInfo
 	consts   map[*ssa.Const]Value
 	path     *Path
 	MapOrder string
@@ -787,6 +788,48 @@ func (in *Interp) slice(instr *ssa.Slice, x, lo, hi, max Value) Value {
 			in.throwRuntime("slice bounds out of range [symbolic]")
 		}
 		return in.concretize(t, 0, int64(Cap)+1)
+	}
+	// s[t : t+k] with a symbolic offset t and a constant length k over a string or a read-only table: the result has
+	// k cells, each an ite chain over the source (no concretisation of t)
+	if lt, ok := lo.(*term.T); ok {
+		if ht, ok := hi.(*term.T); ok && max == nil {
+			lt, ht = in.simplify(lt), in.simplify(ht)
+			if !lt.IsConst() && lt.Sort == ht.Sort {
+				if d := in.st.BinBV(term.OSub, ht, lt); d.IsConst() && int64(d.C) >= 0 && int64(d.C) <= 16 {
+					var cells []Value
+					switch x := x.(type) {
+					case string, *SymStr:
+						cells = strBytes(x)
+					case []Value:
+						if scalarCells(x) {
+							cells = x
+						}
+					}
+					if cells != nil {
+						k := int(d.C)
+						l64 := lt
+						if l64.Sort.W < 64 {
+							l64 = in.st.SExt(l64, 64)
+						}
+						// bounds: 0 <= t and t + k <= len
+						okb := in.st.Cmp(term.OULe, l64, in.st.BVC(uint64(len(cells)-k), 64))
+						if len(cells) < k || !in.branch(okb) {
+							in.throwRuntime("slice bounds out of range [symbolic]")
+						}
+						out := make([]Value, k)
+						for j := 0; j < k; j++ {
+							idx := in.st.BinBV(term.OAdd, l64, in.st.BVC(uint64(j), 64))
+							out[j] = in.loadSymElem(&SymElemPtr{Arr: cells, Idx: idx, w: 8})
+						}
+						switch x.(type) {
+						case string, *SymStr:
+							return mkStr(out)
+						}
+						return out
+					}
+				}
+			}
+		}
 	}
 	l := conc(lo, 0)
 	h := conc(hi, Len)
